@@ -973,6 +973,53 @@ func withInferredPattern(t *Term) *Term {
 		walk(t.Args[0])
 	}
 	if pat == nil {
+		// multi-pattern: spec applications of the hypotheses that together mention every
+		// bound variable (smallest first)
+		var apps []*Term
+		seen := map[string]bool{}
+		var walk func(x *Term)
+		walk = func(x *Term) {
+			if x == nil || x.IsLit {
+				return
+			}
+			if isApp(x) && !containsOp(x, "ite") && !containsOp(x, "forall") && !containsOp(x, "exists") && !seen[x.String()] {
+				seen[x.String()] = true
+				apps = append(apps, x)
+				return
+			}
+			for _, a := range x.Args {
+				walk(a)
+			}
+		}
+		hyp := t.Args[0]
+		for hyp.Op == "=>" && len(hyp.Args) == 2 {
+			walk(hyp.Args[0])
+			hyp = hyp.Args[1]
+		}
+		sort.SliceStable(apps, func(i, j int) bool { return apps[i].Size() < apps[j].Size() })
+		covered := map[string]bool{}
+		var chosen []*Term
+		for _, a := range apps {
+			str := a.String()
+			adds := false
+			for _, b := range t.Binders {
+				if !covered[b.String()] && containsWord(str, b.String()) {
+					adds = true
+				}
+			}
+			if !adds {
+				continue
+			}
+			for _, b := range t.Binders {
+				if containsWord(str, b.String()) {
+					covered[b.String()] = true
+				}
+			}
+			chosen = append(chosen, a)
+		}
+		if len(chosen) >= 2 && len(covered) == len(t.Binders) {
+			return Forall(t.Binders, t.Args[0], &Term{Op: "multipat", Sort: SBool, Args: chosen})
+		}
 		return t
 	}
 	return Forall(t.Binders, t.Args[0], pat)
